@@ -1,0 +1,199 @@
+//go:build verif
+
+package v2
+
+// Machine-checked contracts for this package (read by /verif/govc; comment-only, compiled only
+// with -tags verif). See /verif/DESIGN.md.
+//
+// dig(t) is the base-3 digit of a trit (2 for -1). hval(t) is the Curl hash t read as a
+// little-endian base-3 number plus one: 1 + sum_i dig(t[i]) 3^i; the powers are literals, so every
+// obligation is linear. A lane of a batched Curl state (l, h) holds trit h-bit minus l-bit.
+
+//@ props C12
+
+//@ spec dig(t int8) mathint = ite(t == -1, 2, ite(t == 1, 1, 0))
+//@ spec istrit(t int8) bool = -1 <= t && t <= 1
+//@ spec hval(t trinary.Trits) mathint = 1 + sum(i, 0, 243, dig(t[i]) * pow(3, i))
+
+//@ func tritToUint(t int8) (r uint64)
+//@   requires istrit(t)
+//@   panics  never
+//@   ensures mathint(r) == dig(t)
+
+//@ func toInt(trits trinary.Trits) (r *big.Int)
+//@   requires implies(len(trits) == 243, forall(i, 0, 243, istrit(trits[i])))
+//@   panics  when len(trits) != 243
+//@   loop 1 unroll
+//@   loop 2 unroll
+//@   ensures r != nil && *r == hval(trits) && *r >= 1
+
+// (len(data)+8 is computed in int: byte slices longer than 2^63-9 do not exist on any platform)
+//@ func targetHash(data []byte, targetScore uint64) (r *big.Int)
+//@   requires len(data) <= 9223372036854775799
+//@   panics  never
+//@   ensures r != nil && *r == pow(3, 243) / ((mathint(len(data)) + 8) * mathint(targetScore) + 1)
+
+//@ func sufficientTrailingZeros(data []byte, targetScore uint64) (r int)
+//@   requires len(data) <= 9223372036854775799
+//@   requires (mathint(len(data)) + 8) * mathint(targetScore) <= 18446744073709551615
+//@   panics  never
+//@   ensures 0 <= r && r <= 41
+//@   ensures pow(3, r) >= (mathint(len(data)) + 8) * mathint(targetScore)
+//@   ensures implies(r > 0, pow(3, r-1) < (mathint(len(data)) + 8) * mathint(targetScore))
+//@   loop 1 invariant 0 <= s && s <= 41 && implies(s <= 40, mathint(v) == pow(3, s))
+//@   loop 1 invariant implies(s > 0, pow(3, s-1) < mathint(lx))
+
+//@ spec lanetrit(l [243]uint, h [243]uint, idx uint, j int) int8 = int8((h[j]>>idx)&1) - int8((l[j]>>idx)&1)
+//@ fun hvlane(l [243]uint, h [243]uint, lane int) mathint = 1 + sum(i, 0, 243, dig(lanetrit(l, h, uint(lane), i)) * pow(3, i))
+
+//@ func stateToInt(l *[243]uint, h *[243]uint, idx uint) (r *big.Int)
+//@   repr uint
+//@   requires l != nil && h != nil
+//@   loop 1 unroll
+//@   panics  never
+//@   ensures r != nil && *r == hvlane(*l, *h, int(idx & 63))
+
+// orx(l, h, lo, hi) is the OR of l[j]^h[j] over lo <= j < hi: bit i is 0 exactly when trits lo..hi-1 of
+// lane i are all zero (lemma orx_bit), so bit i of orx(l, h, 243-n, 243) is 0 iff lane i has at least n
+// trailing zero trits.
+//@ rec orx(l [243]uint, h [243]uint, lo int, hi int) uint = ite(lo >= hi, uint(0), orx(l, h, lo, hi-1) | (l[hi-1] ^ h[hi-1]))
+//@ spec bitat(w uint, i int) uint = (w >> uint(i)) & 1
+
+//@ lemma orx_prepend(l [243]uint, h [243]uint, lo int, hi int)
+//@   props C12
+//@   repr uint
+//@   induct hi
+//@   requires 0 <= lo && lo < hi && hi <= 243
+//@   ensures  orx(l, h, lo, hi) == (l[lo] ^ h[lo]) | orx(l, h, lo+1, hi)
+
+// The three-stage lane test, stated over the words of trailing-zero flags: with s = sufficientTrailing,
+// a returned lane has at least s-1 trailing zeros and either at least s or a hash value not above the
+// target; when 64 is returned no lane has s trailing zeros and none with s-1 has a hash value <= target.
+//@ func checkStateTrits(l *[243]uint, h *[243]uint, sufficientTrailing int, target *big.Int) (r int)
+//@   repr uint
+//@   opaque hvlane
+//@   requires l != nil && h != nil && target != nil && 1 <= sufficientTrailing && sufficientTrailing <= 243
+//@   panics  never
+//@   use orx_prepend(*l, *h, 243 - sufficientTrailing, 243)
+//@   ensures 0 <= r && r <= 64
+//@   ensures implies(r < 64, bitat(orx(*l, *h, 244 - sufficientTrailing, 243), r) == 0 && (bitat(orx(*l, *h, 243 - sufficientTrailing, 243), r) == 0 || hvlane(*l, *h, r) <= *target))
+//@   ensures implies(r == 64, forall(i, 0, 64, bitat(orx(*l, *h, 243 - sufficientTrailing, 243), i) == 1 && (bitat(orx(*l, *h, 244 - sufficientTrailing, 243), i) == 1 || hvlane(*l, *h, i) > *target)))
+//@   loop 1 invariant 244 - sufficientTrailing <= i && i <= 243 && v == orx(*l, *h, 244 - sufficientTrailing, i)
+//@   loop 2 invariant 0 <= i && i <= 64 && lo <= i && (i <= hi || i == lo) && forall(m, lo, i, bitat(v, m) == 1 || hvlane(*l, *h, m) > *target)
+
+// The PoW input block: 192 trits b1t6(powDigest), 48 trits b1t6(little-endian nonce), 3 zero trits.
+// bt(v, j) is the j-th balanced trit of v (|v| <= 364): digit j of v+364 in base 3, minus one.
+//@ spec bt(v int, j int) int8 = int8(((v + 364) / pow(3, j)) % 3 - 1)
+//@ spec powin(d []byte, nonce uint64, k int) int8 = ite(k < 192, bt(b1t6.sbyte(d[k/6]), k%6), ite(k < 240, bt(b1t6.sbyte(byte(nonce >> (8*((k-192)/6)))), k%6), int8(0)))
+//@ spec curlhv(d []byte, nonce uint64) mathint = hval(hashcat("curlp81", mkarray(243, k, powin(d, nonce, k))))
+
+//@ lemma bt_unique(t0 int8, t1 int8, t2 int8, t3 int8, t4 int8, t5 int8, v int)
+//@   props C12
+//@   requires istrit(t0) && istrit(t1) && istrit(t2) && istrit(t3) && istrit(t4) && istrit(t5)
+//@   requires int(t0) + 3*int(t1) + 9*int(t2) + 27*int(t3) + 81*int(t4) + 243*int(t5) == v
+//@   ensures  t0 == bt(v, 0) && t1 == bt(v, 1) && t2 == bt(v, 2) && t3 == bt(v, 3) && t4 == bt(v, 4) && t5 == bt(v, 5)
+
+//@ func encodeNonce(dst trinary.Trits, nonce uint64)
+//@   requires len(dst) >= 48
+//@   panics  never
+//@   modifies dst[0:48]
+//@   ensures forall(k, 0, 8, b1t6.trits6(dst, 6*k) && b1t6.val6(dst, 6*k) == b1t6.sbyte(byte(nonce >> (8*k))))
+
+//@ func difficulty(powDigest []byte, nonce uint64) (r *big.Int)
+//@   requires len(powDigest) == 32
+//@   panics  never
+//@   use forall(k, 0, 32, bt_unique(buf[6*k], buf[6*k+1], buf[6*k+2], buf[6*k+3], buf[6*k+4], buf[6*k+5], b1t6.sbyte(powDigest[k])))
+//@   use forall(k, 0, 8, bt_unique(buf[192+6*k], buf[193+6*k], buf[194+6*k], buf[195+6*k], buf[196+6*k], buf[197+6*k], b1t6.sbyte(byte(nonce >> (8*k)))))
+//@   check   forall(k, 0, 243, buf[k] == powin(powDigest, nonce, k))
+//@   check   forall(j, 0, 243, digest[j] == hashcat("curlp81", mkarray(243, k, powin(powDigest, nonce, k)))[j])
+//@   ensures r != nil && *r == floordiv(pow(3, 243), curlhv(powDigest, nonce))
+
+// Score: floor(difficulty / length) saturated at 2^64-1, with difficulty = floor(3^243 / h) and h the
+// hash value of the PoW input built from BLAKE2b-256(msg without its last 8 bytes) and the
+// little-endian nonce in those last 8 bytes.
+//@ spec le64(b []byte) mathint = ((((((mathint(b[7])*256 + mathint(b[6]))*256 + mathint(b[5]))*256 + mathint(b[4]))*256 + mathint(b[3]))*256 + mathint(b[2]))*256 + mathint(b[1]))*256 + mathint(b[0])
+//@ spec hor8(b0 byte, b1 byte, b2 byte, b3 byte, b4 byte, b5 byte, b6 byte, b7 byte) mathint = ((((((mathint(b7)*256 + mathint(b6))*256 + mathint(b5))*256 + mathint(b4))*256 + mathint(b3))*256 + mathint(b2))*256 + mathint(b1))*256 + mathint(b0)
+//@ lemma hor8_bytes(b0 byte, b1 byte, b2 byte, b3 byte, b4 byte, b5 byte, b6 byte, b7 byte)
+//@   props C12
+//@   ensures  hor8(b0, b1, b2, b3, b4, b5, b6, b7) <= 18446744073709551615
+//@   ensures  hor8(b0, b1, b2, b3, b4, b5, b6, b7) == 256*(1*mathint(b1) + 256*mathint(b2) + 65536*mathint(b3) + 16777216*mathint(b4) + 4294967296*mathint(b5) + 1099511627776*mathint(b6) + 281474976710656*mathint(b7)) + (1*mathint(b0)) && (1*mathint(b0)) < 256
+//@   ensures  (hor8(b0, b1, b2, b3, b4, b5, b6, b7)) / 256 == 1*mathint(b1) + 256*mathint(b2) + 65536*mathint(b3) + 16777216*mathint(b4) + 4294967296*mathint(b5) + 1099511627776*mathint(b6) + 281474976710656*mathint(b7)
+//@   ensures  hor8(b0, b1, b2, b3, b4, b5, b6, b7) == 65536*(1*mathint(b2) + 256*mathint(b3) + 65536*mathint(b4) + 16777216*mathint(b5) + 4294967296*mathint(b6) + 1099511627776*mathint(b7)) + (1*mathint(b0) + 256*mathint(b1)) && (1*mathint(b0) + 256*mathint(b1)) < 65536
+//@   ensures  (hor8(b0, b1, b2, b3, b4, b5, b6, b7)) / 65536 == 1*mathint(b2) + 256*mathint(b3) + 65536*mathint(b4) + 16777216*mathint(b5) + 4294967296*mathint(b6) + 1099511627776*mathint(b7)
+//@   ensures  hor8(b0, b1, b2, b3, b4, b5, b6, b7) == 16777216*(1*mathint(b3) + 256*mathint(b4) + 65536*mathint(b5) + 16777216*mathint(b6) + 4294967296*mathint(b7)) + (1*mathint(b0) + 256*mathint(b1) + 65536*mathint(b2)) && (1*mathint(b0) + 256*mathint(b1) + 65536*mathint(b2)) < 16777216
+//@   ensures  (hor8(b0, b1, b2, b3, b4, b5, b6, b7)) / 16777216 == 1*mathint(b3) + 256*mathint(b4) + 65536*mathint(b5) + 16777216*mathint(b6) + 4294967296*mathint(b7)
+//@   ensures  hor8(b0, b1, b2, b3, b4, b5, b6, b7) == 4294967296*(1*mathint(b4) + 256*mathint(b5) + 65536*mathint(b6) + 16777216*mathint(b7)) + (1*mathint(b0) + 256*mathint(b1) + 65536*mathint(b2) + 16777216*mathint(b3)) && (1*mathint(b0) + 256*mathint(b1) + 65536*mathint(b2) + 16777216*mathint(b3)) < 4294967296
+//@   ensures  (hor8(b0, b1, b2, b3, b4, b5, b6, b7)) / 4294967296 == 1*mathint(b4) + 256*mathint(b5) + 65536*mathint(b6) + 16777216*mathint(b7)
+//@   ensures  hor8(b0, b1, b2, b3, b4, b5, b6, b7) == 1099511627776*(1*mathint(b5) + 256*mathint(b6) + 65536*mathint(b7)) + (1*mathint(b0) + 256*mathint(b1) + 65536*mathint(b2) + 16777216*mathint(b3) + 4294967296*mathint(b4)) && (1*mathint(b0) + 256*mathint(b1) + 65536*mathint(b2) + 16777216*mathint(b3) + 4294967296*mathint(b4)) < 1099511627776
+//@   ensures  (hor8(b0, b1, b2, b3, b4, b5, b6, b7)) / 1099511627776 == 1*mathint(b5) + 256*mathint(b6) + 65536*mathint(b7)
+//@   ensures  hor8(b0, b1, b2, b3, b4, b5, b6, b7) == 281474976710656*(1*mathint(b6) + 256*mathint(b7)) + (1*mathint(b0) + 256*mathint(b1) + 65536*mathint(b2) + 16777216*mathint(b3) + 4294967296*mathint(b4) + 1099511627776*mathint(b5)) && (1*mathint(b0) + 256*mathint(b1) + 65536*mathint(b2) + 16777216*mathint(b3) + 4294967296*mathint(b4) + 1099511627776*mathint(b5)) < 281474976710656
+//@   ensures  (hor8(b0, b1, b2, b3, b4, b5, b6, b7)) / 281474976710656 == 1*mathint(b6) + 256*mathint(b7)
+//@   ensures  hor8(b0, b1, b2, b3, b4, b5, b6, b7) == 72057594037927936*(1*mathint(b7)) + (1*mathint(b0) + 256*mathint(b1) + 65536*mathint(b2) + 16777216*mathint(b3) + 4294967296*mathint(b4) + 1099511627776*mathint(b5) + 281474976710656*mathint(b6)) && (1*mathint(b0) + 256*mathint(b1) + 65536*mathint(b2) + 16777216*mathint(b3) + 4294967296*mathint(b4) + 1099511627776*mathint(b5) + 281474976710656*mathint(b6)) < 72057594037927936
+//@   ensures  (hor8(b0, b1, b2, b3, b4, b5, b6, b7)) / 72057594037927936 == 1*mathint(b7)
+//@   ensures  byte(hor8(b0, b1, b2, b3, b4, b5, b6, b7)) == b0
+//@   ensures  byte(hor8(b0, b1, b2, b3, b4, b5, b6, b7) >> 8) == b1
+//@   ensures  byte(hor8(b0, b1, b2, b3, b4, b5, b6, b7) >> 16) == b2
+//@   ensures  byte(hor8(b0, b1, b2, b3, b4, b5, b6, b7) >> 24) == b3
+//@   ensures  byte(hor8(b0, b1, b2, b3, b4, b5, b6, b7) >> 32) == b4
+//@   ensures  byte(hor8(b0, b1, b2, b3, b4, b5, b6, b7) >> 40) == b5
+//@   ensures  byte(hor8(b0, b1, b2, b3, b4, b5, b6, b7) >> 48) == b6
+//@   ensures  byte(hor8(b0, b1, b2, b3, b4, b5, b6, b7) >> 56) == b7
+//@ spec msgdiff(msg []byte) mathint = floordiv(pow(3, 243), curlhv(blake2b256(msg[0:len(msg)-8]), le64(msg[len(msg)-8:len(msg)])))
+//@ func Score(msg []byte) (r uint64)
+//@   panics  when len(msg) < 8
+//@   use     hor8_bytes(msg[dataLen], msg[dataLen+1], msg[dataLen+2], msg[dataLen+3], msg[dataLen+4], msg[dataLen+5], msg[dataLen+6], msg[dataLen+7])
+//@   check   mathint(nonce) == le64(msg[dataLen:len(msg)])
+//@   check   forall(k, 0, 8, byte(nonce >> (8*k)) == msg[dataLen+k])
+//@   ensures mathint(r) == ite(floordiv(msgdiff(msg), len(msg)) > 18446744073709551615, 18446744073709551615, floordiv(msgdiff(msg), len(msg)))
+
+// Arithmetic that carries the lane test to the score (l*x is the message length times the target score,
+// C = 3^243, h a hash value): A1 a hash with s trailing zero trits has h <= 3^(243-s), hence difficulty
+// floor(C/h) >= 3^s >= l*x for the s of sufficientTrailingZeros; A2 h <= floor(C/(l*x+1)) gives
+// floor(C/h) >= l*x+1; A3 conversely floor(C/h) > l*x forces h <= floor(C/(l*x+1)); A4 a difficulty
+// >= l*x gives a score >= x.
+//@ lemma hval_tz(t [243]int8, s int)
+//@   props C12
+//@   requires 0 <= s && s <= 243 && forall(j, 0, 243, istrit(t[j])) && forall(j, 0, 243, implies(j >= 243 - s, t[j] == 0))
+//@   ensures  1 + sum(i, 0, 243, dig(t[i]) * pow(3, i)) <= pow(3, 243 - s)
+//@ lemma diff_a1(h mathint, s int, lx mathint)
+//@   props C12
+//@   requires 1 <= h && 0 <= s && s <= 243 && h <= pow(3, 243 - s) && 1 <= lx && lx <= pow(3, s)
+//@   ensures  floordiv(pow(3, 243), h) >= lx
+//@ lemma diff_a2(h mathint, lx mathint)
+//@   props C12
+//@   requires 1 <= h && 0 <= lx && h <= floordiv(pow(3, 243), lx + 1)
+//@   ensures  floordiv(pow(3, 243), h) >= lx + 1
+//@ lemma diff_a3(h mathint, lx mathint)
+//@   props C12
+//@   requires 1 <= h && 0 <= lx && floordiv(pow(3, 243), h) > lx
+//@   ensures  h <= floordiv(pow(3, 243), lx + 1)
+//@ lemma score_a4(d mathint, l mathint, x mathint)
+//@   props C12
+//@   requires 1 <= l && 0 <= x && d >= l * x
+//@   ensures  floordiv(d, l) >= x
+// ... and a hash with fewer than s-1 trailing zeros (a non-zero trit at an index >= 244-s) has
+// h >= 1 + 3^(244-s), hence floor(C/h) < 3^(s-1) < l*x by the minimality of s: such a lane never has a
+// difficulty above l*x, so skipping it passes over nothing.
+//@ lemma hval_ntz(t [243]int8, s int, j int)
+//@   props C12
+//@   requires 1 <= s && s <= 243 && forall(k, 0, 243, istrit(t[k])) && 244 - s <= j && j < 243 && t[j] != 0
+//@   ensures  1 + sum(i, 0, 243, dig(t[i]) * pow(3, i)) >= 1 + pow(3, 244 - s)
+//@ lemma diff_a3b(h mathint, s int, lx mathint)
+//@   props C12
+//@   requires 1 <= s && s <= 243 && h >= 1 + pow(3, 244 - s) && pow(3, s - 1) < lx
+//@   ensures  floordiv(pow(3, 243), h) < lx
+
+// Meaning of the flag words: bit `lane` of orx(l, h, lo, hi) is 0 exactly when every trit lo..hi-1 of that
+// lane is zero (a trit is zero iff its l and h bits agree).
+//@ lemma orx_bit_zero(l [243]uint, h [243]uint, lo int, hi int, lane int, j int)
+//@   props C12
+//@   repr uint
+//@   induct hi
+//@   requires 0 <= lo && hi <= 243 && 0 <= lane && lane < 64 && lo <= j && j < hi && bitat(orx(l, h, lo, hi), lane) == 0
+//@   ensures  lanetrit(l, h, uint(lane), j) == 0
+//@ lemma orx_bit_one(l [243]uint, h [243]uint, lo int, hi int, lane int)
+//@   props C12
+//@   repr uint
+//@   induct hi
+//@   requires 0 <= lo && hi <= 243 && 0 <= lane && lane < 64 && bitat(orx(l, h, lo, hi), lane) == 1
+//@   ensures  exists(j, lo, hi, lanetrit(l, h, uint(lane), j) != 0)
